@@ -26,7 +26,7 @@ Print Assumptions C03_redeem_requires_matching_verifier.
 (* the method is fixed at authorization time: the record written there carries the request's challenge and method *)
 Theorem C03_challenge_and_method_fixed_at_authorization :
   forall cfg s a,
-  o_err (snd (authorize cfg s a)) = "" ->
+  az_rtype a = RCode -> o_err (snd (authorize cfg s a)) = "" ->
   exists cl, clients s (az_client a) = Some cl /\
   let s' := fst (authorize cfg s a) in
   exists k, nth_error (log s') (List.length (log s)) = Some {| i_kind := KCode; i_key := k; i_rid := next_rid s; i_endpoint_token := false |} /\
@@ -38,7 +38,7 @@ Print Assumptions C03_challenge_and_method_fixed_at_authorization.
 
 (* enforcement and "plain only if enabled", at the authorization endpoint and again at the token endpoint *)
 Theorem C03_authorization_gate :
-  forall cfg s a, o_err (snd (authorize cfg s a)) = "" ->
+  forall cfg s a, az_rtype a = RCode -> o_err (snd (authorize cfg s a)) = "" ->
   exists cl, clients s (az_client a) = Some cl /\ pkce_validate cfg (az_challenge a) (az_method a) cl = None.
 Proof. exact authorize_pkce_gate. Qed.
 Print Assumptions C03_authorization_gate.
@@ -64,7 +64,7 @@ Print Assumptions C03_no_pkce_only_when_not_enforced.
 Theorem C03_binding_holds_after_any_history :
   forall cfg cls h1 a h2 auth redirect v vh tampered,
   let s1 := run cfg (state0 cls) h1 in
-  o_err (snd (authorize cfg s1 a)) = "" -> az_challenge a <> "" ->
+  az_rtype a = RCode -> o_err (snd (authorize cfg s1 a)) = "" -> az_challenge a <> "" ->
   let s2 := run cfg (fst (authorize cfg s1 a)) h2 in
   let code := {| p_ref := CRef (List.length (log s1)); p_tampered := tampered |} in
   o_err (snd (redeem cfg s2 auth code redirect v vh)) = "" ->
